@@ -172,6 +172,9 @@ func expectedFromCredential(f []string, clusterTok string, mesh *string) (a auth
 	case "oidc":
 		sub := wire.Dec(f[6])
 		parts := strings.Split(sub, ":")
+		if len(f) > 9 && strings.HasSuffix(f[9], "n") {
+			return a, false // constructed without a mesh config: there is no trust domain to issue an identity in
+		}
 		if !tokenPresented(f[1], f[4]) || f[5] != "ok" || f[7] != "list" || f[6] == "absent" || len(parts) < 4 ||
 			!strings.HasPrefix(sub, "system:serviceaccount") || parts[2] == "" || parts[3] == "" {
 			return a, false
@@ -276,6 +279,44 @@ func expectedFromCredential(f []string, clusterTok string, mesh *string) (a auth
 	return a, false
 }
 
+// chainView: what each authenticator of a chain sees of the ONE request.  Kubernetes-JWT and OIDC authenticators all
+// read the same `authorization` metadata, which carries the token(s) of the LAST token-based spec of the line (the
+// carrier).  For every other token-based spec the view is: an OIDC authenticator facing an OIDC carrier judges the
+// carrier's token by its own configuration (audiences, trust domain); every other pairing is a token of the wrong
+// kind (a Kubernetes token is no JWT of the OIDC issuer; the API server does not know the OIDC token): nil.
+func chainView(specs [][]string) [][]string {
+	// the carrier: the last token-based spec that puts an authorization value into the request at all
+	carrier, tokenBased := -1, 0
+	for i, sp := range specs {
+		if sp[0] == "kube" || sp[0] == "oidc" {
+			tokenBased++
+			form := sp[4]
+			if sp[0] == "kube" {
+				form = sp[7]
+			}
+			if authValues(form, "t", "o") != nil {
+				carrier = i
+			}
+		}
+	}
+	out := make([][]string, len(specs))
+	for i, sp := range specs {
+		out[i] = sp
+		if (sp[0] != "kube" && sp[0] != "oidc") || i == carrier || tokenBased < 2 || carrier < 0 {
+			continue
+		}
+		c := specs[carrier]
+		if sp[0] == "oidc" && c[0] == "oidc" {
+			v := append([]string{}, sp...)
+			copy(v[4:9], c[4:9]) // header form, token kind, sub, aud kind, aud
+			out[i] = v
+		} else {
+			out[i] = nil
+		}
+	}
+	return out
+}
+
 // issueJudge executes the ops of stream `issue` on the real code ONCE and does two things with each result:
 // it formats the output line the Lean model must predict (exec), and it evaluates the property on the raw
 // result (oracle), independently of the model.  It also counts what the evidence reports: which condition of
@@ -315,6 +356,11 @@ func (j *issueJudge) flush() {
 // finish writes the last verdict and the counters (`#stats` line, skipped by the reader of verdicts).
 func (j *issueJudge) finish() {
 	j.flush()
+	if j.s.authn != nil && j.s.authn.pki != nil {
+		for k, v := range j.s.authn.pki.modes {
+			j.stats[k] += v
+		}
+	}
 	if j.out != nil {
 		j.out.Line(statsLine(j.stats)...)
 		j.out.Flush()
@@ -411,6 +457,9 @@ func (j *issueJudge) judge(res issueResult, line string, who *authed, csr csrSpe
 	if !s.signedBySigner(l) {
 		j.fail("not-signed-by-ca", line)
 	}
+	if !signer.IsCA {
+		j.fail("signer-not-a-ca", line) // nobody could validate such a certificate
+	}
 	if l.notAfter.After(signer.NotAfter) {
 		j.fail("not-beyond-signer-expiry", line)
 	}
@@ -433,6 +482,34 @@ func (j *issueJudge) judge(res issueResult, line string, who *authed, csr csrSpe
 	}
 	if len(l.xext) != 0 {
 		j.fail("csr-extension-copied", line)
+	}
+}
+
+// statusCode: the gRPC status of a refused request says why, and no more.  Whoever is not authenticated - or asks for
+// an identity the impersonation clause does not grant - gets Unauthenticated (whatever else is wrong with the request);
+// an authenticated, authorised caller never does; for him a CA without usable signing certificate answers Internal, a
+// malformed CSR (with a signer present) InvalidArgument; no other code is used.
+func (j *issueJudge) statusCode(res issueResult, who *authed, csr csrSpec, impTok, clusterTok, line string) {
+	if res.code == "" || res.crash {
+		return
+	}
+	j.count("evaluated.status-code-clause")
+	imp, isStr := metaString(impTok)
+	granted := who != nil && (!isStr || imp == "" || mayImpersonate(j.s.cur, clusterTok, *who, imp))
+	if who != nil && isStr && imp != "" && impersonationRefusal(j.s.cur, clusterTok, *who, imp) == "identity-with-comma" {
+		return // no workload has such an identity: it may be refused as unauthorised or as unissuable
+	}
+	switch {
+	case res.code != "Unauthenticated" && res.code != "InvalidArgument" && res.code != "Internal":
+		j.fail("status-code", "unexpected code "+line)
+	case !granted && res.code != "Unauthenticated":
+		j.fail("status-code", "not authenticated / authorised, but "+line)
+	case granted && res.code == "Unauthenticated":
+		j.fail("status-code", "authenticated and authorised, but "+line)
+	case granted && j.s.signerCert() == nil && res.code != "Internal":
+		j.fail("status-code", "no signing certificate, but "+line)
+	case granted && j.s.signerCert() != nil && !csrFormValid(csr.form) && res.code != "InvalidArgument":
+		j.fail("status-code", "malformed CSR, but "+line)
 	}
 }
 
@@ -483,6 +560,9 @@ func (j *issueJudge) step(f []string) string {
 			j.fail("errors-not-crashes", strings.Join(f, " "))
 			return line
 		}
+		if r.noMD {
+			r.cluster = "-" // no incoming metadata: no cluster is named
+		}
 		var who *authed
 		if r.xdsAuth && r.hasPeer && (r.tls || r.plaintext) {
 			for i := range r.outs {
@@ -493,6 +573,7 @@ func (j *issueJudge) step(f []string) string {
 			}
 		}
 		j.gate(res, who, r.imp, r.cluster, "scripted-caller")
+		j.statusCode(res, who, r.csr, r.imp, r.cluster, line)
 		if res.code != "" {
 			return line // an error is always allowed by the property
 		}
@@ -537,19 +618,24 @@ func (j *issueJudge) step(f []string) string {
 				connOK = false // no peer / no TLS auth info: security.Authenticate refuses before any authenticator runs
 			}
 		}
-		winner := "none"
-		for i, sp := range m.specs {
-			if m.req.mode != "" && (sp[0] == "cert" || sp[0] == "tlscert") {
-				continue // not a TLS connection: there is no client certificate
+		winner, valid := "none", 0
+		for i, sp := range chainView(m.specs) {
+			if sp == nil || (m.req.mode != "" && (sp[0] == "cert" || sp[0] == "tlscert")) {
+				continue // a token of the wrong kind; not a TLS connection: there is no client certificate
 			}
-			if w, ok := expectedFromCredential(sp, m.req.cluster, s.authn.mesh); ok && connOK && who == nil {
-				x := w
-				who = &x
-				winner = strconv.Itoa(i) + "-" + sp[0]
+			if w, ok := expectedFromCredential(sp, m.req.cluster, s.authn.mesh); ok && connOK {
+				valid++
+				if who == nil {
+					x := w
+					who = &x
+					winner = strconv.Itoa(i) + "-" + sp[0]
+				}
 			}
 		}
 		j.count("reqm.winner." + winner)
+		j.count("reqm.valid-credentials." + strconv.Itoa(valid))
 		j.gate(res, who, m.req.imp, m.req.cluster, "real-authenticator-chain")
+		j.statusCode(res, who, m.req.csr, m.req.imp, m.req.cluster, line)
 		if res.code != "" {
 			return line
 		}
@@ -587,6 +673,7 @@ func (j *issueJudge) step(f []string) string {
 			who = &w
 		}
 		j.gate(res, who, a.req.imp, a.req.cluster, "real-"+a.spec[0])
+		j.statusCode(res, who, a.req.csr, a.req.imp, a.req.cluster, line)
 		if res.code != "" {
 			return line
 		}
@@ -624,6 +711,14 @@ func (j *issueJudge) step(f []string) string {
 	}
 	if f[0] == "ca" {
 		j.cfg = f
+	}
+	if f[0] == "ca" || f[0] == "rot" {
+		// the certificates the fixture had util.GenCertKeyFromOptions / GenRootCertFromExistingKey make for this op
+		j.stats["evaluated.certgen-clause"] = s.fix.genChecked
+		if s.fix.genFault != "" {
+			j.fail("certgen-"+s.fix.genFault, strings.Join(f, " "))
+			s.fix.genFault = ""
+		}
 	}
 	return out
 }
